@@ -25,11 +25,29 @@ def rule_readlink(rep, d, fn):
                              "rejected rather than cut")
     # every readlink call of the header, in whichever function it lives (executable_path itself or a helper it was moved into)
     sites = []
+    wrappers = {}
     for f_ in ir.functions(d):
         if ir.body(f_) is not None and "xsystem.hpp" in (d.where(f_) or "") and not ir.is_template_pattern(d, f_):
+            w_ = _is_wrapper(d, f_)
+            if w_ is not None:
+                wrappers[f_.get("id")] = w_
+    for f_ in ir.functions(d):
+        if ir.body(f_) is not None and "xsystem.hpp" in (d.where(f_) or "") and not ir.is_template_pattern(d, f_) and f_.get("id") not in wrappers:
             for call, t in calls_named(f_, "readlink"):
                 if not any(call is c0 for _, c0, _ in sites):
                     sites.append((f_, call, t))
+            # calls of a function that only forwards to readlink count as readlink calls with the forwarded buffer and capacity
+            for n_ in ir.walk_expr(f_):
+                if n_.get("kind") in ("CallExpr", "CXXMemberCallExpr", "CXXOperatorCallExpr") and ir.ekids(n_):
+                    c_ = ir.strip(ir.ekids(n_)[0])
+                    rid_ = c_.get("referencedMemberDecl") if c_.get("kind") == "MemberExpr" else (c_.get("referencedDecl") or {}).get("id")
+                    if rid_ in wrappers and not any(n_ is c0 for _, c0, _ in sites):
+                        ia_, ic_ = wrappers[rid_]
+                        args_ = ir.ekids(n_)[1:]
+                        if n_.get("kind") == "CXXOperatorCallExpr":
+                            args_ = args_[1:]
+                        if max(ia_, ic_) < len(args_):
+                            sites.append((f_, n_, ("call", ("ref", "readlink"), ("str", "wrapped"), ir.sx(args_[ia_]), ir.sx(args_[ic_]))))
     if not sites:
         rep.inconclusive("C20.readlink", "executable_path", "readlink call", where=d.where(fn), detail="no readlink call found on this platform")
         return
@@ -51,12 +69,259 @@ def rule_readlink(rep, d, fn):
                          detail="`%s` rewrites the path obtained from the OS: a location whose name happens to match is reported wrongly" % d.text(edits[0])[:60])
         else:
             rep.holds("C20.readlink", "executable_path", "reported path returned unedited", where=d.where(fn), detail="no erase/resize/replace/append on `%s`" % pvar)
+    flows = {}
     for i, (f_, call, t) in enumerate(sites):
         nm = "executable_path" if f_ is fn else "executable_path via %s" % f_.get("name")
-        _readlink_site(rep, d, f_, call, t, nm if len(sites) == 1 else "%s [readlink call %d of %d]" % (nm, i + 1, len(sites)))
+        if f_.get("id") not in flows:
+            flows[f_.get("id")] = _readlink_flow(d, f_, wrappers)
+        _readlink_site(rep, d, f_, call, t, nm if len(sites) == 1 else "%s [readlink call %d of %d]" % (nm, i + 1, len(sites)), flows[f_.get("id")])
 
 
-def _readlink_site(rep, d, fn, call, t, name):
+def _is_wrapper(d, f):
+    """a function whose whole body is `return readlink(path, a, b);` with a, b among its parameters -> (index of a, index of b) else None"""
+    b = ir.body(f)
+    ks = ir.kids(b) if b is not None else []
+    if len(ks) != 1 or ks[0].get("kind") != "ReturnStmt" or not ir.ekids(ks[0]):
+        return None
+    t = ir.sx(ir.ekids(ks[0])[0])
+    while t[0] == "cast":
+        t = t[3]
+    if t[0] != "call" or t[1] != ("ref", "readlink") or len(t) != 5:
+        return None
+    ps = [p.get("name") for p in ir.params(f)]
+    a, c = t[3], t[4]
+    while a[0] == "cast":
+        a = a[3]
+    while c[0] == "cast":
+        c = c[3]
+    if a[0] == "ref" and a[1] in ps and c[0] == "ref" and c[1] in ps:
+        return ps.index(a[1]), ps.index(c[1])
+    return None
+
+
+def _readlink_flow(d, fn, wrappers):
+    """Path-wise: every use of the buffer that readlink filled (a string built / assigned / appended from it) must lie on a path whose conditions
+    entail `len >= 0` and `len < capacity` for the most recent call, and a counted use must pass exactly the returned length.
+    -> {"uses": n, "fail": (node, text) | None, "trunc": (node, text) | None, "count": (node, text) | None, "cstring": node | None} or None"""
+    from .. import flow, linear
+    from ..linear import Lin
+    try:
+        paths = flow.function_paths(fn, with_ctor_inits=False)
+    except cj.AnalysisBroken:
+        return None
+
+    def uncast(t):
+        while isinstance(t, tuple) and t and t[0] == "cast":
+            t = t[3]
+        if isinstance(t, tuple) and t and t[0] == "construct" and len(t) == 3:
+            return uncast(t[2])
+        return t
+
+    def rl_call(n):
+        """-> (buffer term, capacity term) if n is a readlink call or a call of a wrapper of it"""
+        if n.get("kind") not in ("CallExpr", "CXXMemberCallExpr", "CXXOperatorCallExpr"):
+            return None
+        t = ir.sx(n)
+        if t[0] == "call" and t[1] == ("ref", "readlink") and len(t) == 5:
+            return t[3], t[4]
+        c = ir.strip(ir.ekids(n)[0]) if ir.ekids(n) else None
+        rid = None
+        if c is not None:
+            rid = c.get("referencedMemberDecl") if c.get("kind") == "MemberExpr" else (c.get("referencedDecl") or {}).get("id")
+        if rid in wrappers:
+            ia, ic = wrappers[rid]
+            args = ir.ekids(n)[1:]
+            if n.get("kind") == "CXXOperatorCallExpr":
+                args = args[1:]          # the object the call operator is applied to
+            if max(ia, ic) < len(args):
+                return ir.sx(args[ia]), ir.sx(args[ic])
+        return None
+
+    def root(t):
+        for x in ir.subterms(t):
+            if isinstance(x, tuple) and x and x[0] == "ref":
+                return x[1]
+        return None
+    res = {"uses": 0, "fail": None, "trunc": None, "count": None, "cstring": None}
+    for path in paths:
+        facts = []
+        env = {}          # integer local -> Lin
+        bools = {}        # bool local -> (op, Lin, Lin)
+        st = {"k": 0, "capterm": None, "capvalid": False, "buf": None}
+        dead = False
+
+        def L(t):
+            t = uncast(t)
+            if t[0] == "lit":
+                try:
+                    v = int(str(t[1]))
+                    return Lin({"": v}) if v else Lin()
+                except ValueError:
+                    return None
+            if t[0] == "un" and t[1] == "-":
+                a = L(t[2])
+                return -a if a is not None else None
+            if t[0] == "ref" and t[1] in env:
+                return env[t[1]]
+            if st["capvalid"] and st["capterm"] is not None and t == st["capterm"]:
+                return Lin({"cap#%d" % st["k"]: 1})
+            if t[0] == "bin" and t[1] in ("+", "-"):
+                a, b = L(t[2]), L(t[3])
+                if a is None or b is None:
+                    return None
+                return a + b if t[1] == "+" else a - b
+            return None
+
+        def new_call(bufcap):
+            st["k"] += 1
+            st["capterm"] = uncast(bufcap[1])
+            st["capvalid"] = True
+            st["buf"] = root(bufcap[0])
+            facts.append(Lin({"len#%d" % st["k"]: 1, "": 1}))          # readlink returns -1 or a length
+            return Lin({"len#%d" % st["k"]: 1})
+
+        def value_of(node):
+            """Lin of an integer initialiser / right-hand side; a (wrapped) readlink call starts a new (len, cap) pair"""
+            inner = node
+            while inner.get("kind") in ir.WRAPPERS or inner.get("kind") in ("ImplicitCastExpr", "CXXStaticCastExpr", "CStyleCastExpr", "CXXFunctionalCastExpr"):
+                kk = ir.ekids(inner)
+                if not kk:
+                    break
+                inner = kk[-1]
+            bc = rl_call(inner)
+            if bc is not None:
+                return new_call(bc)
+            return L(ir.sx(node))
+
+        def cmp_of(t):
+            t = uncast(t)
+            if t[0] == "bin" and t[1] in linear.NEG:
+                a, b = L(t[2]), L(t[3])
+                if a is not None and b is not None:
+                    return (t[1], a, b)
+            return None
+
+        def assume(c, truth):
+            op, a, b = c
+            if not truth:
+                op = linear.NEG[op]
+            facts.extend(linear.atom_facts(op, a, b))
+            if op == "!=":
+                if linear.entails(facts, a - b, ()):
+                    facts.append(a - b - Lin({"": 1}))
+                elif linear.entails(facts, b - a, ()):
+                    facts.append(b - a - Lin({"": 1}))
+
+        def scan_uses(node):
+            for x in ir.walk_expr(node):
+                k = x.get("kind")
+                if k not in ("CXXMemberCallExpr", "CXXConstructExpr", "CXXTemporaryObjectExpr", "CXXOperatorCallExpr"):
+                    continue
+                t = ir.sx(x)
+                args = None
+                if k == "CXXMemberCallExpr" and t[0] == "call" and t[1][0] == "mem" and t[1][2] in ("assign", "append"):
+                    args = [a for a in t[2:] if a != ("defaultarg",)]
+                elif k in ("CXXConstructExpr", "CXXTemporaryObjectExpr") and "basic_string" in ir.qtype(x):
+                    args = [ir.sx(a) for a in ir.ekids(x) if a.get("kind") != "CXXDefaultArgExpr"]
+                elif k == "CXXOperatorCallExpr" and t[0] == "bin" and t[1] == "=" and "basic_string" in ir.qtype(ir.ekids(x)[1]):
+                    args = [t[3]]
+                if not args or st["buf"] is None or st["k"] == 0:
+                    continue
+                a0 = uncast(args[0])
+                if root(a0) != st["buf"] or a0 == ("ref", st["buf"]) and "basic_string" in ir.qtype(x) and k != "CXXOperatorCallExpr" and len(args) == 1 and \
+                        "basic_string" in (ir.qtype(ir.ekids(x)[0]) if ir.ekids(x) else ""):
+                    continue
+                # only a pointer into the buffer counts (data(), &buf[0], the array itself); a copy of the string object does not read raw bytes
+                lenk = Lin({"len#%d" % st["k"]: 1})
+                res["uses"] += 1
+                if len(args) >= 2:
+                    n_ = L(args[1])
+                    if n_ is None or n_ != lenk:
+                        res["count"] = res["count"] or (x, "`%s` takes `%s` characters, not the length the last readlink returned" % (d.text(x)[:50], ir.show(args[1])[:30]))
+                else:
+                    res["cstring"] = res["cstring"] or x
+                if not linear.entails(facts, lenk, ()):
+                    res["fail"] = res["fail"] or (x, "`%s` is reached on a path that did not rule out the failure result -1" % d.text(x)[:50])
+                if len(args) >= 2 and not linear.entails(facts, Lin({"cap#%d" % st["k"]: 1}) - lenk - Lin({"": 1}), ()):
+                    res["trunc"] = res["trunc"] or (x, "`%s` is reached on a path that did not establish length < capacity `%s`: a result that fills the whole buffer may "
+                                                       "already be truncated" % (d.text(x)[:50], ir.show(st["capterm"])[:30] if st["capterm"] else "?"))
+        for step in path:
+            kind = step[0]
+            if kind == "cond" and isinstance(step[1], dict):
+                t = uncast(ir.sx(step[1]))
+                c = cmp_of(t)
+                if c is None and t[0] == "ref" and t[1] in bools:
+                    c = bools[t[1]]
+                if c is not None:
+                    assume(c, step[2])
+                    if len(facts) <= 14 and linear.entails(facts, Lin({"": -1}), ()):
+                        dead = True
+                        break
+                continue
+            if kind == "decl":
+                v = step[1]
+                init = ir.ekids(v)
+                if not init:
+                    continue
+                if ir.qtype(v).replace("const ", "").strip() == "bool":
+                    c = cmp_of(ir.sx(init[-1]))
+                    if c is not None:
+                        bools[v.get("name")] = c
+                    else:
+                        bools.pop(v.get("name"), None)
+                    continue
+                val = value_of(init[-1])
+                if val is not None:
+                    env[v.get("name")] = val
+                else:
+                    env.pop(v.get("name"), None)
+                    scan_uses(v)
+                continue
+            if kind == "return" and isinstance(step[1], dict):
+                scan_uses(step[1])
+                continue
+            if kind != "ev" or not isinstance(step[1], dict):
+                continue
+            n = step[1]
+            t = ir.sx(n)
+            if n.get("kind") in ("BinaryOperator",) and n.get("opcode") == "=" and uncast(t[2])[0] == "ref":
+                nm = uncast(t[2])[1]
+                rhs = ir.ekids(n)[1]
+                c = cmp_of(ir.sx(rhs))
+                if c is not None and "bool" in ir.qtype(ir.ekids(n)[0]):
+                    bools[nm] = c
+                    continue
+                val = value_of(rhs)
+                if val is not None:
+                    env[nm] = val
+                else:
+                    env.pop(nm, None)
+                    bools.pop(nm, None)
+                continue
+            bc = rl_call(n)
+            if bc is not None:
+                # evaluated for its value elsewhere (initialiser / assignment): those sites create the pair; a bare call statement discards the length
+                par = d.parent_of(n)
+                hops = 0
+                while par is not None and par.get("kind") in ("ImplicitCastExpr", "ParenExpr", "CXXStaticCastExpr", "CStyleCastExpr", "ExprWithCleanups") and hops < 5:
+                    par = d.parent_of(par)
+                    hops += 1
+                if par is not None and (par.get("kind") == "VarDecl" or (par.get("kind") == "BinaryOperator" and par.get("opcode") == "=")):
+                    continue
+                new_call(bc)
+                continue
+            # a change of the buffer object's size invalidates what `capacity` meant at the call
+            if n.get("kind") in ("CXXMemberCallExpr",) and t[0] == "call" and t[1][0] == "mem" and uncast(t[1][1])[0] == "ref" and uncast(t[1][1])[1] == st["buf"] and \
+                    t[1][2] not in ("data", "size", "length", "c_str", "begin", "end", "operator[]", "capacity", "empty"):
+                st["capvalid"] = False
+                continue
+            scan_uses(n)
+        if dead:
+            continue
+    return res if res["uses"] else None
+
+
+def _readlink_site(rep, d, fn, call, t, name, flow_res=None):
     where = d.where(call)
     buf, cap = t[3], t[4]
     # the result variable (or direct comparison)
@@ -90,8 +355,14 @@ def _readlink_site(rep, d, fn, call, t, name):
     neg1 = lambda x: x is not None and ((x[0] == "un" and x[1] == "-" and x[2] == ("lit", "1")) or x == ("lit", "-1"))
     zero = lambda x: x == ("lit", "0")
     has_fail = any((op in ("==", "!=") and neg1(o)) or (op in ("<", ">=") and zero(o)) for _, op, o in fail_tests)
-    (rep.holds if has_fail else rep.violates)("C20.readlink", name, "failure test", where=where,
-                                              detail="result compared with -1 / < 0" if has_fail else "the result of readlink is never tested for failure (-1)")
+    if flow_res is not None:
+        if flow_res["fail"]:
+            rep.violates("C20.readlink", name, "failure test", where=d.where(flow_res["fail"][0]), detail=flow_res["fail"][1])
+        else:
+            rep.holds("C20.readlink", name, "failure test", where=where, detail="every use of the buffer lies on a path that excluded -1 (%d uses over all paths)" % flow_res["uses"])
+    else:
+        (rep.holds if has_fail else rep.violates)("C20.readlink", name, "failure test", where=where,
+                                                  detail="result compared with -1 / < 0" if has_fail else "the result of readlink is never tested for failure (-1)")
     # (b) how is the path built from the buffer?
     bufname = None
     for s in ir.subterms(buf):
@@ -121,7 +392,12 @@ def _readlink_site(rep, d, fn, call, t, name):
             elif (s[0] == "bin" and s[1] == "=" and not uses_len and any(x == ("ref", bufname) for x in ir.subterms(s[3]))) or \
                     (s[0] == "call" and s[1][0] == "mem" and s[1][2] in ("assign", "append") and not uses_len and len(s) == 3):
                 cstring_use = n
-    if counted_use and cstring_use is None:
+    if flow_res is not None and flow_res["cstring"] is None:
+        if flow_res["count"]:
+            rep.violates("C20.readlink", name, "path built from returned length", where=d.where(flow_res["count"][0]), detail=flow_res["count"][1])
+        else:
+            rep.holds("C20.readlink", name, "path built from returned length", where=where, detail="every string built from the buffer takes exactly the returned length")
+    elif counted_use and cstring_use is None:
         rep.holds("C20.readlink", name, "path built from returned length", where=where, detail="buffer `%s` used with the returned length" % bufname)
     elif cstring_use is not None:
         # allowed only if capacity passed < real capacity and buffer zeroed: passed length must be sizeof(buf) - 1
@@ -143,6 +419,12 @@ def _readlink_site(rep, d, fn, call, t, name):
     strip = lambda x: strip(x[3]) if x[0] == "cast" else x
     cap_s = strip(cap)
     trunc = any(o is not None and (strip(o) == cap_s or ir.show(strip(o)) == ir.show(cap_s)) for _, op, o in fail_tests)
+    if flow_res is not None and flow_res["cstring"] is None:
+        if flow_res["trunc"]:
+            rep.violates("C20.readlink", name, "truncation test", where=d.where(flow_res["trunc"][0]), detail=flow_res["trunc"][1])
+        else:
+            rep.holds("C20.readlink", name, "truncation test", where=where, detail="every string built from the buffer lies on a path that established length < capacity")
+        return
     if trunc:
         # the branch that builds the path must establish  len < capacity  (len == capacity may already be a truncated result)
         from ..linear import Lin, lin, nnf, dnf, atom_facts, entails
@@ -208,7 +490,23 @@ def rule_prefix(rep, d, fn):
             if iv and iv[0] == iv[1]:
                 sep_names.add(n.get("name"))
                 sep_val = iv[0]
-    if sep_val != ord("/"):
+    # ... or a parameter-free function of the library that returns a character constant (`detail::path_separator()`), called from here or from
+    # a helper of this function
+    sep_fns = {}
+    for f_ in ir.functions(d):
+        if "/xtl/" in (d.where(f_) or "") and ir.body(f_) is not None and not ir.params(f_):
+            rt_ = (f_.get("type") or {}).get("qualType", "").split("(")[0].strip()
+            ks_ = ir.kids(ir.body(f_))
+            if rt_.replace("const ", "").replace("constexpr ", "").strip() == "char" and len(ks_) == 1 and ks_[0].get("kind") == "ReturnStmt" and ir.ekids(ks_[0]):
+                iv = trange.interval(ir.ekids(ks_[0])[0])
+                if iv and iv[0] == iv[1]:
+                    sep_fns[f_.get("name")] = iv[0]
+    if sep_val is None and sep_fns:
+        vals_ = set(sep_fns.values())
+        sep_val = vals_.pop() if len(vals_) == 1 else None
+    if sep_val is None:
+        rep.inconclusive("C20.prefix", name, "separator", where=where, detail="no character constant that could be the separator found")
+    elif sep_val != ord("/"):
         rep.violates("C20.prefix", name, "separator", where=where, detail="separator on this platform must be '/', found code %s" % sep_val)
     else:
         rep.holds("C20.prefix", name, "separator", where=where)
@@ -220,6 +518,10 @@ def rule_prefix(rep, d, fn):
         t = norm.uncast(t)
         if t[0] == "val":
             return t[1] == ("SEP",)
+        if t[0] == "call" and len([x for x in t[2:] if x != ("defaultarg",)]) == 0:
+            nm_ = str(t[1][1] if t[1][0] == "ref" else t[1][2]).split("::")[-1]
+            if sep_fns.get(nm_) == ord("/"):
+                return True
         return (t[0] == "ref" and t[1] in sep_names) or (t[0] == "lit" and str(t[1]) in ("47", "'/'"))
 
     def helper_body(nm):
@@ -259,7 +561,9 @@ def rule_prefix(rep, d, fn):
             args = t2[2:]
             if callee == ("ref", "executable_path") and not args:
                 return ("EXE",)
-            if callee[0] == "mem" and callee[2] == "find_last_of" and len(args) >= 1 and is_sep(args[0]):
+            if not args and is_sep(t2):
+                return ("SEP",)
+            if callee[0] == "mem" and callee[2] in ("find_last_of", "rfind") and len(args) >= 1 and is_sep(args[0]):
                 return ("flo", ev(callee[1], depth))
             if callee[0] == "mem" and callee[2] in ("find_last_of", "rfind", "find", "find_first_of") and len(args) >= 1:
                 return ("flox", ev(callee[1], depth), ir.show(t2)[:50])       # a cut position, but not the last separator
@@ -279,6 +583,29 @@ def rule_prefix(rep, d, fn):
                 if f is not None and len(ir.params(f)) == len(args):
                     m = {p_.get("name"): ev(a_, depth) for p_, a_ in zip(ir.params(f), args)}
                     return ev(subst(body, m), depth + 1)
+                # a helper with statements that works on its own copy of the string (`path.erase(pos); return path;`)
+                for f2 in ir.functions(d, nm):
+                    if ir.body(f2) is None or "/xtl/" not in (d.where(f2) or "") or len(ir.params(f2)) != len(args):
+                        continue
+                    saved_env, saved_sep = dict(env), set(sep_names)
+                    for p_, a_ in zip(ir.params(f2), args):
+                        v_ = ev(a_, depth)
+                        if v_ == ("SEP",):
+                            sep_names.add(p_.get("name"))
+                        else:
+                            env[p_.get("name")] = v_
+                    state["rets"].append(None)
+                    ok_before = state["straight"]
+                    run_stmts(ir.kids(ir.body(f2)), {}, depth + 1)
+                    rv_ = state["rets"].pop()
+                    env.clear()
+                    env.update(saved_env)
+                    sep_names.clear()
+                    sep_names.update(saved_sep)
+                    if rv_ is not None and state["straight"]:
+                        return rv_
+                    state["straight"] = ok_before
+                    break
             return ("?", ir.show(t2)[:60])
         if t2[0] == "cond":
             # npos == cut ? s : s.substr(0, cut)  ==  s.substr(0, cut)  (substr clamps npos to the end)
@@ -297,48 +624,113 @@ def rule_prefix(rep, d, fn):
         if t2[0] == "construct" and len(t2) == 3:
             return ev(t2[2], depth)
         return ("?", ir.show(t2)[:60])
-    result = None
-    straight = True
-    for s_ in ir.kids(ir.body(fn)):
-        k = s_.get("kind")
-        if k == "DeclStmt":
-            for v in ir.kids(s_):
-                if v.get("kind") == "VarDecl" and ir.ekids(v) and v.get("name") not in sep_names:
-                    env[v.get("name")] = ev(ir.sx(ir.ekids(v)[-1]))
-        elif k == "ReturnStmt":
-            result = ev(ir.sx(ir.ekids(s_)[0])) if ir.ekids(s_) else None
-        elif k in ("CompoundAssignOperator", "CXXOperatorCallExpr", "CXXMemberCallExpr", "BinaryOperator", "ExprWithCleanups"):
-            t = norm.uncast(ir.sx(s_))
-            if t[0] == "bin" and t[1] == "+=" and norm.uncast(t[2])[0] == "ref" and is_sep(t[3]):
-                env[norm.uncast(t[2])[1]] = ("app", env.get(norm.uncast(t[2])[1], ("?", "uninitialised")))
-            elif t[0] == "call" and t[1][0] == "mem" and t[1][2] in ("push_back", "append") and norm.uncast(t[1][1])[0] == "ref" and (len(t) == 3 and is_sep(t[2]) or (len(t) == 4 and norm.int_of(t[2]) == 1 and is_sep(t[3]))):
-                nm_ = norm.uncast(t[1][1])[1]
-                env[nm_] = ("app", env.get(nm_, ("?", "uninitialised")))
-            elif t[0] == "bin" and t[1] == "=" and norm.uncast(t[2])[0] == "ref":
-                env[norm.uncast(t[2])[1]] = ev(t[3])
-            elif t[0] == "call" and t[1][0] == "mem" and t[1][2] in ("resize", "erase") and norm.uncast(t[1][1])[0] == "ref" and len(t) == 3:
-                # in-place cut: s.resize(p) / s.erase(p) keep s[0..p)
-                nm_ = norm.uncast(t[1][1])[1]
-                cur = env.get(nm_, ("?", "uninitialised"))
-                a_ = tuple(x for x in norm.uncast(t[2]) if x != ("defaultarg",))
-                pos_ = ev(a_)
-                if a_[0] == "call" and str(a_[1][1] if a_[1][0] == "ref" else "").split("::")[-1] == "min" and len(a_) == 4:
-                    x_, y_ = ev(a_[2]), ev(a_[3])
-                    sz = lambda q: q[0] == "?" and False
-                    szt = [q for q in (a_[2], a_[3]) if norm.uncast(q)[0] == "call" and norm.uncast(q)[1][0] == "mem" and norm.uncast(q)[1][2] in ("size", "length")]
-                    fl = [q for q in (x_, y_) if q[0] == "flo"]
-                    if szt and fl and fl[0] == ("flo", cur):
-                        pos_ = fl[0]          # min(find_last_of(sep), size()): npos clamps to the whole string, like substr
-                if pos_ == ("flo", cur):
-                    env[nm_] = ("cut", cur) if t[1][2] == "erase" or (a_[0] == "call" and "min" in ir.show(a_[1])) else ("cutx", cur, "resize(find_last_of(sep)) - throws when no separator is left")
-                elif a_[0] == "bin" and a_[1] == "+" and ev(a_[2]) == ("flo", cur) and norm.int_of(a_[3]) == 1:
-                    env[nm_] = ("cutx", cur, "keeps s[0..last separator]; empty when no separator is left (npos + 1 wraps to 0)")
+    state = {"result": None, "straight": True, "rets": []}
+
+    def resolve(nm_, alias):
+        return alias.get(nm_, nm_)
+
+    def flo_local(t, alias):
+        """value of a position term, through position locals"""
+        return ev(t)
+
+    def run_stmts(stmts, alias, depth):
+        for s_ in stmts:
+            k = s_.get("kind")
+            if k == "CompoundStmt":
+                run_stmts(ir.kids(s_), alias, depth)
+            elif k == "DeclStmt":
+                for v in ir.kids(s_):
+                    if v.get("kind") == "VarDecl" and ir.ekids(v) and v.get("name") not in sep_names:
+                        env[v.get("name")] = ev(sub_alias(ir.sx(ir.ekids(v)[-1]), alias))
+                    elif v.get("kind") in ("TypedefDecl", "TypeAliasDecl"):
+                        pass
+            elif k == "ReturnStmt":
+                rv0 = ev(sub_alias(ir.sx(ir.ekids(s_)[0]), alias)) if ir.ekids(s_) else None
+                if state["rets"]:
+                    state["rets"][-1] = rv0
+                elif depth == 0:
+                    state["result"] = rv0
+            elif k == "IfStmt":
+                # `if (pos != npos) s.erase(pos);` with pos = s.rfind/find_last_of(separator): s up to its last separator, whole when there is none
+                raw = [c for c in s_.get("inner", []) if isinstance(c, dict) and c.get("kind")]
+                c = norm.norm_cmp(sub_alias(ir.sx(raw[0]), alias), lambda x: ev(x)[0] == "flo")
+                body_ = ir.kids(raw[1]) if raw[1].get("kind") == "CompoundStmt" else [raw[1]]
+                done = False
+                if c is not None and c[0] == "!=" and ev(c[2]) == ("NPOS",) and len(raw) == 2 and len(body_) == 1:
+                    t = norm.uncast(sub_alias(ir.sx(body_[0]), alias))
+                    if t[0] == "call" and t[1][0] == "mem" and t[1][2] in ("erase", "resize") and norm.uncast(t[1][1])[0] == "ref" and len([x for x in t[2:] if x != ("defaultarg",)]) == 1:
+                        nm_ = norm.uncast(t[1][1])[1]
+                        cur = env.get(nm_, ("?", "uninitialised"))
+                        if ev(c[1]) == ("flo", cur) and ev(t[2]) == ("flo", cur):
+                            env[nm_] = ("cut", cur)
+                            done = True
+                if not done:
+                    state["straight"] = False
+            elif k in ("CompoundAssignOperator", "CXXOperatorCallExpr", "CXXMemberCallExpr", "BinaryOperator", "ExprWithCleanups", "CallExpr"):
+                t = norm.uncast(sub_alias(ir.sx(s_), alias))
+                t = tuple(x for x in t if x != ("defaultarg",)) if t and t[0] == "call" else t
+                if t[0] == "bin" and t[1] == "+=" and norm.uncast(t[2])[0] == "ref" and is_sep(t[3]):
+                    env[norm.uncast(t[2])[1]] = ("app", env.get(norm.uncast(t[2])[1], ("?", "uninitialised")))
+                elif t[0] == "call" and t[1][0] == "mem" and t[1][2] in ("push_back", "append") and norm.uncast(t[1][1])[0] == "ref" and (len(t) == 3 and is_sep(t[2]) or (len(t) == 4 and norm.int_of(t[2]) == 1 and is_sep(t[3]))):
+                    nm_ = norm.uncast(t[1][1])[1]
+                    env[nm_] = ("app", env.get(nm_, ("?", "uninitialised")))
+                elif t[0] == "bin" and t[1] == "=" and norm.uncast(t[2])[0] == "ref":
+                    env[norm.uncast(t[2])[1]] = ev(t[3])
+                elif t[0] == "call" and t[1][0] == "mem" and t[1][2] in ("resize", "erase") and norm.uncast(t[1][1])[0] == "ref" and len(t) == 3:
+                    # in-place cut: s.resize(p) / s.erase(p) keep s[0..p)
+                    nm_ = norm.uncast(t[1][1])[1]
+                    cur = env.get(nm_, ("?", "uninitialised"))
+                    a_ = tuple(x for x in norm.uncast(t[2]) if x != ("defaultarg",))
+                    pos_ = ev(a_)
+                    if a_[0] == "call" and str(a_[1][1] if a_[1][0] == "ref" else "").split("::")[-1] == "min" and len(a_) == 4:
+                        x_, y_ = ev(a_[2]), ev(a_[3])
+                        szt = [q for q in (a_[2], a_[3]) if norm.uncast(q)[0] == "call" and norm.uncast(q)[1][0] == "mem" and norm.uncast(q)[1][2] in ("size", "length")]
+                        fl = [q for q in (x_, y_) if q[0] == "flo"]
+                        if szt and fl and fl[0] == ("flo", cur):
+                            pos_ = fl[0]          # min(find_last_of(sep), size()): npos clamps to the whole string, like substr
+                    if pos_ == ("flo", cur):
+                        env[nm_] = ("cut", cur) if t[1][2] == "erase" or (a_[0] == "call" and "min" in ir.show(a_[1])) else ("cutx", cur, "resize(find_last_of(sep)) - throws when no separator is left")
+                    elif a_[0] == "bin" and a_[1] == "+" and ev(a_[2]) == ("flo", cur) and norm.int_of(a_[3]) == 1:
+                        env[nm_] = ("cutx", cur, "keeps s[0..last separator]; empty when no separator is left (npos + 1 wraps to 0)")
+                    else:
+                        env[nm_] = ("?", ir.show(t)[:60])
+                elif t[0] == "call" and depth < 3 and helper_stmts(t) is not None:
+                    # a helper of the library that edits a string it receives by reference
+                    f_, al2 = helper_stmts(t)
+                    run_stmts(ir.kids(ir.body(f_)), al2, depth + 1)
                 else:
-                    env[nm_] = ("?", ir.show(t)[:60])
-            else:
-                straight = False
-        elif k not in ("NullStmt",):
-            straight = False
+                    state["straight"] = False
+            elif k not in ("NullStmt",):
+                state["straight"] = False
+
+    def sub_alias(t, alias):
+        if not alias or not isinstance(t, tuple):
+            return t
+        if t[0] == "ref" and t[1] in alias:
+            return ("ref", alias[t[1]])
+        return tuple(sub_alias(x, alias) if isinstance(x, tuple) else x for x in t)
+
+    def helper_stmts(t):
+        callee = t[1]
+        nm_ = str(callee[1] if callee[0] == "ref" else callee[2]).split("::")[-1]
+        args = [x for x in t[2:] if x != ("defaultarg",)]
+        for f_ in ir.functions(d, nm_):
+            if ir.body(f_) is None or "/xtl/" not in (d.where(f_) or "") or len(ir.params(f_)) != len(args):
+                continue
+            al2 = {}
+            ok = True
+            for p_, a_ in zip(ir.params(f_), args):
+                a0 = norm.uncast(a_)
+                if "&" in ir.qtype(p_) and "const" not in ir.qtype(p_) and a0[0] == "ref":
+                    al2[p_.get("name")] = a0[1]
+                else:
+                    ok = False
+            if ok and al2:
+                return f_, al2
+        return None
+    run_stmts(ir.kids(ir.body(fn)), {}, 0)
+    result = state["result"]
+    straight = state["straight"]
     want = ("app", ("cut", ("cut", ("EXE",))))
 
     def sh(v):
